@@ -207,6 +207,8 @@ def build_reset(d):
     for k in ('random_agent', 'random_exit', 'num_obstacles', 'num_rivers', 'num_beacons', 'num_exits'):
         if k in d:
             kw[k] = d[k]
+            if d.get('numpy_ints') and isinstance(d[k], int) and not isinstance(d[k], bool):
+                kw[k] = np.int64(d[k])          # counts computed with numpy arithmetic are integers like any other
     if 'layout' in d:
         kw['layout'] = tuple(d['layout'])
     if 'colors' in d:
